@@ -72,6 +72,35 @@ def one(cat, rng, stack, n):
     return b.s
 
 
+def clone_from_short(cat, rng, stack):
+    """clone_from of a *short* source (empty, cleared, or one or two items: its index container has not left its compact
+    representation) into a destination with a longer history of its own (its container usually has): the destination must
+    become the source's sequence and forget everything else (round 9)."""
+    b = RB(ID, cat, rng, stack)
+    b.new("d")
+    for _ in range(3 + rng.below(6)):
+        v = b.value()
+        b.push("d", v, b.form_for(v))
+    b.new("a")
+    mode = rng.below(3)
+    if mode >= 1:
+        for _ in range(1 + rng.below(2 if mode == 1 else 4)):
+            v = b.value()
+            b.push("a", v, b.form_for(v))
+    if mode == 2:
+        b.clear("a")
+    b.raw("clone_from d a", ("eq", "ok"), shape="clone_from")
+    b.h["d"].vals = list(b.h["a"].vals)
+    b.h["d"].last_pushed = b.h["a"].last_pushed
+    observe(b, "d")
+    for _ in range(1 + rng.below(3)):
+        v = b.value()
+        b.push("d", v, b.form_for(v))
+        observe(b, "d")
+    b.s.nontrivial = True
+    return b.s
+
+
 def push_all(b, name, vs):
     # extend == repeated copy, including the collapse rule of the shadow
     for v in vs:
@@ -92,4 +121,7 @@ def generate(seed, tier):
         for st in cat["stacks"]:
             for i in range(per):
                 out.append(one(cat, rng.fork(), st, 2 + rng.below(maxn)))
+            if cat["caps"]["clone"]:
+                for i in range({"quick": 2, "thorough": 12, "search": 4}[tier]):
+                    out.append(clone_from_short(cat, rng.fork(), st))
     return out
